@@ -78,4 +78,7 @@ def Row.adequate (r : Row) : Bool :=
   -- the model's tag table has one slot per tag
   && (r.tags.map (·.1)).Nodup
 
+/-- the members of a choice group all belong to the slot of the child being switched to -/
+def Row.groupOk (r : Row) (group : List Nat) : Bool := group.all fun t => r.slot t == r.slot r.child
+
 end Pptx.Slots
